@@ -127,7 +127,11 @@ def _side(spec, side):
         off = len(payload) if (var["after"] and naming != 2) else 0
         specs = [{"col": off + i} for i in range(nk)]
     else:
-        specs = [{"vec": list(keys[i])} for i in range(nk)]
+        # an external key vector may carry the NAME of a stored column (a derived key such as t.k.fillna(0) keeps its source's
+        # name): the join must go by the vector's values, not by the stored column of that name
+        pnames = [nm for nm, _ in payload if isinstance(nm, str)]
+        specs = [dict({"vec": list(keys[i])}, **({"vname": pnames[i % len(pnames)]} if pnames and spec.get("v", 0) % 2 == 0 else {}))
+                 for i in range(nk)]
     form = "list" if (nk != 1 or var["listform"]) else "single"
     return cols, {"form": form, "specs": specs}
 
@@ -182,7 +186,7 @@ def expand(spec):
             elif "col" in s:
                 args.append(t.cols()[s["col"]])
             elif "vec" in s:
-                args.append(Vector([dec(x) for x in s["vec"]]))
+                args.append(Vector([dec(x) for x in s["vec"]], name=s.get("vname")))
             else:
                 args.append(0)
         onvecs.append(args)
